@@ -214,6 +214,45 @@ func runC03(c *Ctx) {
 	fTaskIDs := P.Field("overlord/state.Change.taskIDs")
 	fTStatus := P.Field("overlord/state.Task.status")
 	dl := LoopsOver(dcr, VField(fTaskIDs))
+	if len(dl) == 0 {
+		// the scan as a boolean helper: if !c.allTasksReadyExcept(excludeTask) { return }
+		for _, hc := range localCalls(dcr) {
+			hl := LoopsOver(hc.h, VField(fTaskIDs))
+			obj, isF := hc.h.Object().(*types.Func)
+			if len(hl) != 1 || !isF || hc.cc.Parent() != dcr || hc.h.Signature.Results().Len() != 1 {
+				continue
+			}
+			c.touch(hc.h)
+			ei := -1
+			for j, a := range hc.cc.Common().Args {
+				if VParam(dcr, 1)(a) {
+					ei = j
+				}
+			}
+			if ei < 0 {
+				continue
+			}
+			c.LatchGated("overlord/state.(*Change).detectChangeReady#loop", hl[0], []Clause{{
+				Cmp("task==excludeTask", anyVal, token.EQL, VParam(hc.h, ei)),
+				TrueRes("task.status.Ready()", true, 0, CallWhere(ToFn(readyObj), 0, VField(fTStatus))),
+			}})
+			nt := 0
+			for _, lf := range ReturnLeaves(hc.h, 0) {
+				if bv, isC := ConstBool(lf.Val); isC && bv {
+					nt++
+					c.ThroughLoop(fmt.Sprintf("overlord/state.(*Change).detectChangeReady#all-ready-only-after-loop#%d", nt), hl[0], lf)
+				} else if !isC {
+					c.Undecided("overlord/state.(*Change).detectChangeReady#helper-verdict", lf.Pos(), "the helper returns a computed value")
+				}
+			}
+			allReady := TrueRes(hc.h.Name()+"(excludeTask)", true, 0, ToFn(obj))
+			for i, mc := range CallSites(dcr, markReadyObj) {
+				c.Guarded(fmt.Sprintf("overlord/state.(*Change).detectChangeReady#markReady-after-loop#%d", i+1), dcr, mc, []Clause{{allReady}}, nil)
+			}
+			dl = append(dl, hl[0])
+			goto dcrDone
+		}
+	}
 	if len(dl) != 1 {
 		c.Undecided("overlord/state.(*Change).detectChangeReady#loop", dcr.Pos(), fmt.Sprintf("expected one loop over c.taskIDs, found %d", len(dl)))
 	} else {
@@ -226,6 +265,7 @@ func runC03(c *Ctx) {
 			c.ThroughLoop(fmt.Sprintf("overlord/state.(*Change).detectChangeReady#markReady-after-loop#%d", i+1), rl, FlowPoint{Instr: mc})
 		}
 	}
+dcrDone:
 
 	// ---- R3
 	c.Rule("C03-R3", "G+W", "daemon.abortChange: chg.Abort() <= !chg.IsReady(); the only other caller of Change.Abort is State.Prune under readyTime.IsZero()", 2)
